@@ -42,20 +42,20 @@ def _alarm(_sig, _frm):
     raise TimeLimit()
 
 
-signal.signal(signal.SIGALRM, _alarm)
+signal.signal(signal.SIGVTALRM, _alarm)   # CPU time of this process: independent of machine load
 
 
 def limited(fun, limit):
-    """run fun() under a wall-clock limit; returns (result, exc_or_None, seconds)"""
+    """run fun() under a CPU-time limit; returns (result, exc_or_None, seconds)"""
     t0 = time.time()
-    signal.setitimer(signal.ITIMER_REAL, limit, 0.2)
+    signal.setitimer(signal.ITIMER_VIRTUAL, limit, 0.2)
     try:
         try:
             r = fun()
-            signal.setitimer(signal.ITIMER_REAL, 0)
+            signal.setitimer(signal.ITIMER_VIRTUAL, 0)
             return r, None, time.time() - t0
         finally:
-            signal.setitimer(signal.ITIMER_REAL, 0)
+            signal.setitimer(signal.ITIMER_VIRTUAL, 0)
     except TimeLimit as e:
         return None, e, time.time() - t0
     except RecursionError as e:
@@ -114,6 +114,12 @@ def analyse(text, limit, full=True):
     keys = []
     wf_broken = False
     last_line = None
+    passwords = []
+
+    def wdinv(i):
+        return inv.setdefault(i, None) or next(k for k, v in wd.items() if v == i)
+
+    inv = {}
 
     def snap(label):
         nonlocal last_line, wf_broken
@@ -122,13 +128,18 @@ def analyse(text, limit, full=True):
         if s.cycle:
             res.setdefault("cycle", []).append(label)
         if line != last_line:
-            res["snaps"].append([label, line])
+            res["snaps"].append([label, line, S.digest(s.root, s.cells, s.cycle)])
         if line != last_line and not wf_broken:
             why = "cycle" if s.cycle else S.py_wf(s.root, s.cells)
             if why:
                 wf_broken = True
                 keys.append(["wf", label])
                 res["py_wf"] = [label, why]
+            else:
+                cnt = {}
+                for x in S.py_cwords(s.root, s.cells):
+                    cnt[wdinv(x[0])] = cnt.get(wdinv(x[0]), 0) + 1
+                passwords.append((label.split(":")[-1], cnt))
         last_line = line
         return s
 
@@ -172,7 +183,8 @@ def analyse(text, limit, full=True):
             else:
                 errs = [m for (who, m) in tc2.get_reports() if who == "clean" and m.startswith("'ERROR:'")]
                 a = S.Snap(tree2, wd2)
-                res["clean_all"] = {"errors": errs[:5], "before": b.line(), "after": a.line(), "dt": round(dt, 4)}
+                res["clean_all"] = {"errors": errs[:5], "before": b.line(), "after": a.line(), "dt": round(dt, 4),
+                                    "pv_before": S.digest(b.root, b.cells, b.cycle), "pv_after": S.digest(a.root, a.cells, a.cycle)}
                 if errs:
                     keys.append(["report-error"])
                 okb = not b.cycle and S.py_wf(b.root, b.cells) is None
@@ -182,8 +194,31 @@ def analyse(text, limit, full=True):
                     cwa = S.py_cwords(a.root, a.cells)
                     c7 = S.c07_compare(cwb, S.py_tables(b.root, b.cells), cwa)
                     if c7:
-                        keys.append(["c07", c7[0]])
                         res["py_c07"] = list(c7)
+                        if c7[0] in ("word-lost", "word-duplicated"):
+                            inv2 = {v: k for k, v in wd2.items()}
+                            cb, ca_ = {}, {}
+                            for x in cwb:
+                                cb[x[0]] = cb.get(x[0], 0) + 1
+                            for x in cwa:
+                                ca_[x[0]] = ca_.get(x[0], 0) + 1
+                            seen = set()
+                            for x in cwb:
+                                if cb.get(x[0], 0) == ca_.get(x[0], 0):
+                                    continue
+                                word = inv2[x[0]]
+                                at = "?"
+                                for lab, cnt in passwords:
+                                    if cnt.get(word, 0) != cb[x[0]]:
+                                        at = lab
+                                        break
+                                wh = "in a reference" if x[3] else ("in a table" if x[4] else ("in a list" if x[2] else "in running text"))
+                                k7 = ["c07", c7[0], wh, at]
+                                if tuple(k7) not in seen:
+                                    seen.add(tuple(k7))
+                                    keys.append(k7)
+                        else:
+                            keys.append(["c07", c7[0]])
                     pc = S.py_contract(a.root, a.cells)
                     if pc:
                         d = {c[0]: c for c in a.cells}
@@ -197,7 +232,7 @@ def analyse(text, limit, full=True):
     return res
 
 
-def ddmin(text, key, limit, max_evals=500):
+def ddmin(text, key, limit, max_evals=250):
     evals = [0]
 
     def bad(t):
@@ -205,7 +240,7 @@ def ddmin(text, key, limit, max_evals=500):
             return False
         evals[0] += 1
         try:
-            r = analyse(t, limit)
+            r = analyse(t, limit, full=key[0] not in ("wf", "exc", "timeout") or key[1] == "clean_all")
         except BaseException:
             return False
         return key in r.get("keys", [])
@@ -234,7 +269,10 @@ def ddmin(text, key, limit, max_evals=500):
         return text, evals[0], False
     lines = reduce(text.split("\n"), "\n".join)
     text = "\n".join(lines)
-    if len(text) <= 400:
+    if key[0] == "c07":
+        toks = reduce(text.replace("\n", " \n ").split(" "), lambda u: " ".join(u).replace(" \n ", "\n"))
+        text = " ".join(toks).replace(" \n ", "\n")
+    elif len(text) <= 400:
         chars = reduce(list(text), "".join)
         text = "".join(chars)
     return text, evals[0], True
